@@ -30,7 +30,7 @@ def mask_text(t):
     return BANNER.sub("End of Run after X Seconds.", t)
 
 
-def run_ops(ctx, exe, ops, timeout=300):
+def run_ops(ctx, exe, ops, timeout=150):
     work = vlib.BUILD / "c07_work"
     work.mkdir(exist_ok=True)
     d = tempfile.mkdtemp(dir=work)
@@ -91,17 +91,37 @@ class Policy:
         return path in self.tolerated or path.split(".")[0] in self.tolerated or path in ("dump_info.file_name",)
 
 
+def normalize_history(ctx, exe, ops):
+    """the property quantifies over (successful calls | setters)* (failing call)?: cut the history after its first failing call"""
+    rc, out, _ = run_ops(ctx, exe, ["new"] + ops, timeout=120)
+    res = [l for l in out if l.startswith("R ")][1:]
+    keep = []
+    for k, op in enumerate(ops):
+        keep.append(op)
+        if k < len(res):
+            w = res[k].split()
+            if w[1] in ("run", "runf", "acc", "load", "loads") and w[-1] != "0":
+                return keep, True
+        else:
+            return keep, True             # the process died in this call
+    return keep, False
+
+
 def compare_case(ctx, exe, pol, case):
     """run history+load+probes on A and survivors+load+probes on B; returns dict(kind, details…) or None"""
+    if not case.get("normalized"):
+        case["ops"], case["ends_failing"] = normalize_history(ctx, exe, case["ops"])
+        case["normalized"] = True
     hist = case["ops"]
-    post = ["mark L", case["load_op"], "wstate w0", "state s0"] + case["post"]
+    post = ["cleanfiles", "mark L", case["load_op"], "wstate w0", "state s0"] + case["post"]
     opsA = ([f"spawn {case['spawn']}"] if case.get("spawn") else []) + ["new"] + hist + ["wstate wpre"] + post
     opsB = ["new"] + H.survivor_ops(hist) + ["wstate wpre"] + post
     rcA, A, errA = run_ops(ctx, exe, opsA)
     rcB, B, errB = run_ops(ctx, exe, opsB)
     res = dict(black=[], white=[], wrapper=[], info={})
     if rcB != 0:
-        return dict(kind="infrastructure", what=f"fresh instance run ended with {rcB}: {errB}", **res)
+        # the probe battery itself crashes or hangs on a new instance with this database: nothing to compare (C08's subject)
+        return dict(kind="probe-crash-on-fresh-instance", **res)
     if rcA != 0:
         # a crash of the history process before the load is outside C07 (C08); after the load it is a difference
         done_load = any(l.startswith("R load") or l.startswith("R loads") for l in (after_mark(A, "L") or []))
@@ -196,9 +216,9 @@ def targeted_cases():
     add("delete-run-cells-after-abort", ["run " + H.hx("DELETE\n -solution 1\n -exchange 1\nRUN_CELLS\n -cells 1\n -time_step 10\n -start_time 3\n" + bad)],
         ["SOLUTION 1\n Na 1\nEXCHANGE 1\n X 0.1\n -equilibrate 1\nEND\nRUN_CELLS\n -cells 1\nEND\nDUMP\n -all\nEND\n"])
     add("spread-after-abort", ["run " + H.hx("SOLUTION_SPREAD\n Na\tCl\n 3\t4\n 5\t6\n" + bad)], ["SOLUTION 1\n Na 1\nEND\nDUMP\n -all\nEND\n"])
-    add("rates-cache", ["run " + H.hx("RATES\n Aaa\n -start\n 10 SAVE 1\n -end\n Zzz\n -start\n 10 SAVE 2\n -end\nSOLUTION 1\nKINETICS 1\n Zzz\n -formula NaCl 1\n -steps 1\nEND\n"),
+    add("rates-cache", ["run " + H.hx("RATES\n Aaa\n -start\n 10 SAVE 1e-3 * TIME\n -end\n Zzz\n -start\n 10 SAVE 2e-3 * TIME\n -end\nSOLUTION 1\nKINETICS 1\n Zzz\n -formula NaCl 1\n -steps 1\nEND\n"),
                         "run " + H.hx("KINETICS 2\n Nosuchrate\n -formula NaCl 1\n -steps 1\nSOLUTION 2\nEND\n")],
-        ["SOLUTION 1\n Na 1\nKINETICS 1\n Calcite\n -steps 1\n Zzz\n -formula NaCl 1\nEND\n", H.P_KIN])
+        ["SOLUTION 1\n Na 1\nKINETICS 1\n Calcite\n -steps 1\n -m0 1\n Zzz\n -formula NaCl 1\nEND\n", H.P_KIN])
     add("basic-storage", ["run " + H.hx("SOLUTION 1\nUSER_PRINT\n 10 PUT(5, 1)\n 20 PUT(6, 5)\n 30 PUT(7, 2, 3)\nEND\n")], [H.P_BASIC])
     add("knobs", ["run " + H.hx("KNOBS\n -iterations 3\n -step_size 2\n -pe_step_size 1.5\n -convergence_tolerance 1e-3\nSOLUTION 1\nEND\n")],
         [H.P_NOSEL, H.P_REACT])
@@ -262,6 +282,8 @@ def run(ctx):
                 hist_tags[key] = hist_tags.get(key, 0) + 1
             if res["kind"] in ("same", "diff"):
                 nontrivial.add((tuple(c["ops"]), c["load_op"]))
+                if c.get("ends_failing"):
+                    stats["histories_ending_in_a_failing_call"] = stats.get("histories_ending_in_a_failing_call", 0) + 1
             if evals <= 2 or (len(ctx.cov["samples"]) < 3 and any(t.startswith("fail:") for t in c.get("tags", []))):
                 ctx.sample({"tags": c.get("tags", [])[:8], "db_after": c["db_after"], "result": res["kind"],
                             "history_calls": len(c["ops"]), "load": res.get("info", {}).get("load")})
